@@ -140,3 +140,93 @@ for cfg, prefix, root in (('q_f64', 'types_q_f64', False), ('q_dec', 'types_q_de
         register(f'{prefix}_{which}', verus_unit(f'{prefix}_{which}', types_unit(cfg, prefix, which, root)))
     if cfg in C07_ARGS:
         register(prefix.replace('types_', 'c07_'), verus_unit(prefix.replace('types_', 'c07_'), types_unit(cfg, prefix, 'c07', root), canary=False))
+
+# ---------------- Kani units ----------------
+import gen_kani
+import krunner
+import spec_tables
+
+_kani_mem = {}
+KANI_CFG = {
+    # cfg: (kind, features, decl source, path_of, extra deps, table crate)
+    'q_f64': ('f64', ['doc'], 'catalogue'),
+    'q_dec': ('dec', ['doc', 'fpdec'], 'catalogue'),
+    'astro_f64': ('f64', ['doc'], 'astro'),
+}
+
+
+def derived_forms(declmap):
+    out = []
+    for name, d in declmap.items():
+        if not d.derived:
+            continue
+        a, op, b = d.derived
+        if op == '*':
+            out.append((a, 'Mul', b, name))
+            if a != b:
+                out.append((b, 'Mul', a, name))
+                out.append((name, 'Div', a, b))
+            out.append((name, 'Div', b, a))
+        else:
+            out.append((a, 'Div', b, name))
+            out.append((name, 'Mul', b, a))
+            out.append((b, 'Mul', name, a))
+            out.append((a, 'Div', name, b))
+    return out
+
+
+def kani_crate(cfg):
+    with _build_lock:
+        if cfg in _kani_mem:
+            return _kani_mem[cfg]
+        kind, feats, src = KANI_CFG[cfg]
+        try:
+            g = gen_kani.KaniGen(kind)
+            extra = ''
+            if src == 'catalogue':
+                dm = decls.catalogue()
+                g.add_types(dm, lambda d: f'quantities::{d.module}')
+                tab = spec_tables.Table('quantities')
+            else:
+                dm = decls.astro()
+                g.add_types(dm, lambda d: 'astronomical_quantities', 'astro')
+                extra = f'astronomical-quantities = {{ path = "{common.REPO}/astronimical_quantities" }}\n'
+                tab = spec_tables.Table('astro')
+            si = {p['const'] for p in gen_kani.si_names()}
+            byname = {t.name: t for t in g.types}
+            for t in g.types:
+                g.type_common(t)
+                g.gen_reg(t)
+                g.gen_sym(t)
+                g.gen_tab(t, tab.units(t.name), si)
+                if t.has_ref:
+                    g.gen_ufs(t)
+                    g.gen_fit(t)
+                    if kind == 'f64':
+                        g.gen_total_like(t)
+                else:
+                    g.gen_noref(t)
+            if kind == 'f64':
+                for a, op, b, r in derived_forms(dm):
+                    g.gen_total_derived(byname, a, op, b, r)
+            if src == 'catalogue':
+                gen_kani.gen_si(g)
+                gen_kani.gen_conv(g)
+        except gen_verus.LostAnchor as e:
+            raise Undecided(f'lost anchor while generating kani crate {cfg}: {e}')
+        text = g.render()
+        d = krunner.write_crate(cfg, text, feats, extra)
+        _kani_mem[cfg] = (d, text, g.meta)
+        return _kani_mem[cfg]
+
+
+def kani_unit(cfg, family):
+    def run(prop, tier, seed):
+        d, text, meta = kani_crate(cfg)
+        return krunner.run_family(cfg, d, family, text, meta, jobs=12)
+    return run
+
+
+for cfg in KANI_CFG:
+    for fam in ('reg', 'sym', 'symc', 'tab', 'ufs', 'fit', 'total', 'totald', 'noref', 'si', 'si2', 'conv'):
+        register(f'kani_{cfg}:{fam}', kani_unit(cfg, fam))
